@@ -140,6 +140,13 @@ def storeStack (g : Geom) (ks : List Nat) : Stack :=
   { rowCos := g.d2, colCos := g.d1, psRow := g.s1, psCol := g.s2, hint := some g.s0,
     pos := ks.map (planePosition g) }
 
+/-- which planes a segmentation stores: `_get_nonempty_plane_indices` (planes with any non-zero pixel; all planes
+when every plane is empty) behind the `omit_empty_frames` switch of the constructor.  `nonempty[k]` = plane `k` has a
+non-zero pixel. -/
+def keptPlanes (nonempty : List Bool) (omitEmpty : Bool) : List Nat :=
+  let idx := (nonempty.zipIdx.filter (fun p => p.1)).map (fun p => p.2)
+  if omitEmpty && !idx.isEmpty then idx else List.range nonempty.length
+
 /-! ## reading: stored attributes → geometry -/
 
 /-- normal used everywhere on the read side: `get_normal_vector(iop, (D, R), RIGHT_HANDED)` =
